@@ -53,10 +53,20 @@ def run_harness(ctx, binary, test, inp, tag, timeout=3000):
 
 def real_bits(ctx, binary):
     """bloom9 bit positions of the model's items from the real go-ethereum Bloom -> module LQBits"""
-    fout = run_harness(ctx, binary, "TestVerifLQBits", {"shapes": {}, "paths": []}, "bits")
-    if not fout:
-        return None, None
-    m = vf.read_ndjson(fout)[0]
+    # the positions depend only on the seed (contract addresses) and on the harness sources: cached per seed
+    import hashlib
+    hd = os.path.join(vf.VERIF, "harness", HARNESS)
+    sig = hashlib.sha256(("%d|%s|" % (ctx.seed, vf.REPO)).encode() + b"".join(open(os.path.join(hd, f), "rb").read() for f in sorted(os.listdir(hd)))).hexdigest()[:16]
+    cache = os.path.join(vf.VERIF, "build", "cache", "lqbits-%s.json" % sig)
+    if os.path.exists(cache):
+        m = json.load(open(cache))
+    else:
+        fout = run_harness(ctx, binary, "TestVerifLQBits", {"shapes": {}, "paths": []}, "bits")
+        if not fout:
+            return None, None
+        m = vf.read_ndjson(fout)[0]
+        os.makedirs(os.path.dirname(cache), exist_ok=True)
+        vf.write_json(cache, m)
     arms = ["x = \"%s\" -> {%s}" % (k, ", ".join(str(b) for b in m[k])) for k in sorted(m)]
     text = ("------------------------------- MODULE LQBits -------------------------------\n"
             "\\* generated from the real types.Bloom by harness/b_ledger TestVerifLQBits\n"
@@ -314,7 +324,7 @@ def self_test(ctx, trace_path):
     bad3 = json.loads(json.dumps(ev))
     j = next((i for i in range(2, len(ev)) if ev[i]["event"] in ("PreExec",) or (ev[i]["event"] == "Submit" and ev[i]["res"] == "error")), None)
     tests = [("corrupt", bad1), ("drop", bad2)]
-    if j is not None:
+    if j is not None and ctx.thorough:
         bad3[j]["changed"] = ["state"]
         tests.append(("changed", bad3))
     import threading, time
